@@ -80,6 +80,9 @@ pub trait Prop {
   fn rule() -> &'static str;
   fn assumptions() -> Vec<String> { vec![] }
   fn exhaustive_note(_tier: Tier) -> Option<String> { None }
+  /// for properties whose timeouts are normally only counted: a signature if a budget overrun on THIS case is nevertheless a violation
+  /// (e.g. a tiny input that cannot legitimately need the whole budget)
+  fn hang_sig(_case: &Self::Case) -> Option<String> { None }
   fn rlimit_as_mb() -> u64 { 6144 }
   /// stack of the thread that runs the cases (large by default so that debug-build frame sizes do not masquerade as defects)
   fn stack_mb() -> usize { 1024 }
@@ -542,6 +545,7 @@ pub fn supervisor_main<P: Prop>(o: RunOpts) -> i32 {
       let sig = P::crash_sig(&case, "hang");
       if known.find(&sig).is_some() { if let Some(pin) = c["pin"].as_str() { agg.pins_ok.push(pin.to_string()); } else { *agg.known_hits.entry(sig).or_insert(0) += 1; } }
       else if P::timeout_is_violation() { agg.violations.push((sig, format!("case did not finish within {} ms", P::timeout_ms(o.tier)), c["case"].clone(), Some(P::describe(&case)), None)); }
+      else if let Some(hs) = P::hang_sig(&case) { if known.find(&hs).is_none() { agg.violations.push((hs, format!("case did not finish within {} ms", P::timeout_ms(o.tier)), c["case"].clone(), Some(P::describe(&case)), None)); } }
     }
   }
   if !P::timeout_is_violation() && (to_list.len() as u64) * 100 > agg.cases.max(1) { exit2_reasons.push(format!("{} of {} cases timed out", to_list.len(), agg.cases)); }
